@@ -181,6 +181,7 @@ def step (st : DState2) (line : String) : DState2 × String :=
   | "loss" :: args => (st, opLoss args)
   | "stat" :: args => (st, opStat st.core args)
   | "sess" :: args => (st, opSess st.core args)
+  | "csrc" :: args => (st, opCsrc args)
   | "chan" :: args => (st, opChan args)
   | "tracks" :: args => (st, opTracks args)
   | "ttml" :: args => (st, opTtml args)
